@@ -197,6 +197,22 @@ def run_cauchy_case(case):
             continue
         if got != want:
             fails.append(dict(what="cauchy_dot_product element %s differs from the dense Cauchy sum" % (list(idx),), input=case, index=list(idx), expected=want, observed=got))
+    # product_by_order called directly, operator left at its default (matmul), on fresh factors
+    if len(case["tables"]) == 2 and not case.get("operator") and not case.get("forbidden") and case["kind"] not in ("witness_one_typeerror", "witness_one_sympify"):
+        from pymablock.series import product_by_order
+
+        fresh = build_impl(case)
+        for idx in case["requests"][:2]:
+            idx = tuple(idx)
+            if case["herm"] and idx[0] > idx[1]:
+                continue  # the transposition wrapper is not part of product_by_order
+            want = ref.get(idx, ZERO)
+            try:
+                got = m_from_impl(product_by_order(idx, fresh[0], fresh[1], hermitian=case["herm"]))
+            except BaseException as e:  # noqa: BLE001
+                got = type(e).__name__
+            if got != want:
+                fails.append(dict(what="product_by_order(%s) with the default operator differs from the dense Cauchy sum" % (list(idx),), input=case, index=list(idx), expected=want, observed=got))
     # the factors must be unchanged by the requests: every stored element still equals the value it
     # was created with (the table is the deep copy taken before)
     if not case.get("forbidden"):
@@ -565,6 +581,98 @@ def witness_one_cases():
     return [w1, w2]
 
 
+def run_cauchy_api_case(case):
+    """Construction-time behaviour of cauchy_dot_product and the sentinel algebra (replayable from the seed)."""
+    import random
+
+    from sympy.physics.quantum import Dagger
+
+    from pymablock import series as S
+    from pymablock.series import BlockSeries, cauchy_dot_product, one, zero
+
+    rng = random.Random(case["seed"])
+    fails = []
+
+    def fail(what, **kw):
+        fails.append(dict(what=what, input=case, index=None, **kw))
+
+    def mk(shape, ninf, names=None, name=None):
+        return BlockSeries(eval=lambda *i: m_to_np(EYE), shape=shape, n_infinite=ninf, dimension_names=names, name=name)
+
+    def expect_valueerror(label, *factors, **kw):
+        try:
+            cauchy_dot_product(*factors, **kw)
+            fail("cauchy_dot_product accepted factors with %s" % label)
+        except ValueError:
+            pass
+        except BaseException as e:  # noqa: BLE001
+            fail("%s instead of ValueError for factors with %s" % (type(e).__name__, label), observed=type(e).__name__)
+
+    p, q, r = rng.randint(1, 3), rng.randint(1, 3), rng.randint(1, 3)
+    n = rng.randint(1, 3)
+    herm = rng.random() < 0.5
+    extra = [mk((r, r), n)] if rng.random() < 0.5 else []
+    expect_valueerror("unequal numbers of infinite dimensions", mk((p, q), n), mk((q, r), n + 1), *extra, hermitian=herm)
+    expect_valueerror("different dimension names", mk((p, q), n, tuple("a%d" % k for k in range(n))), mk((q, r), n, tuple("b%d" % k for k in range(n))), *extra)
+    expect_valueerror("different dimension names (default vs custom)", mk((p, q), n), mk((q, r), n, tuple("b%d" % k for k in range(n))))
+    expect_valueerror("incompatible finite dimensions", mk((p, q), n), mk((q + 1, r), n), *extra, hermitian=herm)
+    if extra:
+        expect_valueerror("incompatible finite dimensions in the third factor", mk((p, q), n), mk((q, r), n), mk((r + 1, r), n))
+    expect_valueerror("a single factor", mk((p, p), n))
+    # propagation of shape, n_infinite, dimension_names and name
+    names = tuple("k_%s" % c for c in "xyz"[:n]) if rng.random() < 0.6 else None
+    facs = [mk((p, q), n, names, "A"), mk((q, r), n, names, "B")]
+    if rng.random() < 0.5:
+        facs.append(mk((r, p), n, names, "C"))
+    prod = cauchy_dot_product(*facs)
+    want_names = names or tuple("n_%d" % k for k in range(n))
+    want_shape = (p, facs[-1].shape[1])
+    want_name = " @ ".join(f.name for f in facs)
+    if tuple(prod.dimension_names) != want_names or prod.n_infinite != n or tuple(prod.shape) != want_shape:
+        fail("product series has shape %r, n_infinite %r, dimension_names %r" % (prod.shape, prod.n_infinite, prod.dimension_names), expected=[list(want_shape), n, list(want_names)])
+    if prod.name != want_name:
+        fail("product series is named %r" % prod.name, expected=want_name)
+    text = str(prod)
+    if want_name not in text or any(str(nm) not in text for nm in want_names) or str(want_shape[0]) not in text:
+        fail("str(product) = %r does not show its name, finite shape and dimension names" % text)
+    idx = (0, 0) + (1,) * n
+    v = prod[idx]
+    k = len(facs)
+    # every factor is the constant series 1 (identity matrices): the element counts chains and splittings
+    from math import comb
+
+    count = 1
+    for d in [f.shape[1] for f in facs[:-1]]:
+        count *= d
+    count *= comb(1 + k - 1, k - 1) ** n
+    if m_from_impl(v) != tuple((count * a, count * b) for a, b in EYE):
+        fail("product of %d constant identity series at %r is not %d * identity" % (k, idx, count), observed=str(m_from_impl(v)), expected=count)
+    # the sentinels
+    x = m_to_np(m_of(rand_val(rng)))
+    checks = [
+        ("zero + x is x", lambda: (zero + x) is x),
+        ("zero - x == -x", lambda: np.array_equal(zero - x, -x)),
+        ("zero * x is zero", lambda: (zero * x) is zero),
+        ("-zero is zero", lambda: (-zero) is zero),
+        ("zero.adjoint() is zero", lambda: zero.adjoint() is zero),
+        ("Dagger(zero) is zero", lambda: Dagger(zero) is zero),
+        ("zero + one is one", lambda: (zero + one) is one),
+        ("zero - zero is zero", lambda: (zero - zero) is zero),
+        ("repr(zero) == 'zero'", lambda: repr(zero) == "zero"),
+        ("repr(one) == 'one'", lambda: repr(one) == "one"),
+        ("repr(PENDING) == 'pending'", lambda: repr(S.PENDING) == "pending"),
+    ]
+    for label, fn in checks:
+        try:
+            ok = bool(fn())
+        except BaseException as e:  # noqa: BLE001
+            ok = False
+            label += " (raised %s)" % type(e).__name__
+        if not ok:
+            fail("sentinel law violated: " + label)
+    return fails
+
+
 def oracle_cauchy(ctx, ncases=None):
     n = ncases or ctx.n(150, 3000)
     rng = ctx.rng
@@ -577,9 +685,11 @@ def oracle_cauchy(ctx, ncases=None):
         k = rng.choice(kinds)
         cases.append(lazy_case(rng) if k == "lazy" else gen_cauchy_case(rng, k))
     evaluations = 0
+    for k in range(max(3, n // 25)):
+        cases.append(dict(kind="api", seed=rng.randrange(10**9), tables=[], N=[0], requests=[], dims=[], herm=False))
     for case in cases:
         try:
-            f = run_cauchy_case(case)
+            f = run_cauchy_api_case(case) if case["kind"] == "api" else run_cauchy_case(case)
         except Exception as e:  # noqa: BLE001
             f = [dict(what="oracle could not run the case: %r" % (e,), input=case, index=None, observed=type(e).__name__)]
         evaluations += len(case["requests"])
